@@ -1,6 +1,6 @@
 (* C20: specifications and proofs.  The property theorems are restated in C20/Props.v. *)
 From Coq Require Import ZArith Lia ZifyBool ZifyN.
-From Wz Require Import lib.Bytes lib.BytesFacts C20.Types C20.Gen C20.Model.
+From Wz Require Import lib.Bytes lib.BytesFacts C20.Types C20.Str C20.Gen C20.Model.
 Open Scope N_scope.
 Ltac Zify.zify_post_hook ::= Z.to_euclidean_division_equations.
 
@@ -356,10 +356,10 @@ Inductive host_part : str -> str -> Prop :=
 | hp_unclosed r : mem RBR r = false -> host_part (LBR :: r) (LBR :: r)
 | hp_trailing a d rest : mem RBR a = false -> d <> COLON -> host_part (LBR :: a ++ RBR :: d :: rest) (LBR :: a ++ RBR :: d :: rest).
 
-Lemma strip_port_part h : host_part h (strip_port h).
+Lemma strip_port_part h : host_part h (strip_port_ref h).
 Proof.
   destruct h as [|c r]; [apply hp_plain; reflexivity|].
-  unfold strip_port. destruct (c =? LBR) eqn:E.
+  unfold strip_port_ref. destruct (c =? LBR) eqn:E.
   - apply N.eqb_eq in E. subst c. destruct (partition1 RBR r) as [a [rest|]] eqn:P.
     + destruct (partition1_some _ _ _ _ P) as [-> M]. destruct rest as [|d rest].
       * apply hp_v6. exact M.
@@ -382,7 +382,7 @@ Hypothesis idna_u_labels : forall s o, idna_u s = Some o -> ascii_labels_ok o 0 
 Definition names (text n : str) : Prop := exists p, host_part text p /\ idna_encode idna_u p = Some n.
 
 Lemma norm_host_names t n : norm_host idna_u t = Some n -> names t n.
-Proof. intro H. exists (strip_port t). split; [apply strip_port_part|exact H]. Qed.
+Proof. intro H. exists (strip_port_ref t). split; [apply strip_port_part|exact H]. Qed.
 
 Lemma idna_encode_labels s o : idna_encode idna_u s = Some o -> ascii_labels_ok o 0 = true.
 Proof.
@@ -414,7 +414,7 @@ Proof.
   intros [h0 Hh0] l. induction l as [|ref l IH]; cbn [match_refs]; [discriminate|].
   destruct (split_dot ref) as [ref1 sm] eqn:SD.
   destruct (norm_host idna_u ref1) as [refn|] eqn:NH.
-  2:{ unfold on_idna_failure. destruct ref_catches_unicode_error; discriminate. }
+  2:{ discriminate. }
   destruct (list_eqb refn hn || (sm && ends_with (DOT :: refn) hn)) eqn:M.
   - intros _. exists ref. split; [left; reflexivity|].
     unfold split_dot in SD. destruct ref as [|c r].
@@ -432,16 +432,16 @@ Proof.
   - intro H. destruct (IH H) as [r [Hin Ha]]. exists r. split; [right; exact Hin|exact Ha].
 Qed.
 
-Lemma host_sound h l : host_is_trusted idna_u (Some h) l = Ok true -> spec_trusted h l.
+Lemma host_sound h l : host_is_trusted_ref idna_u (Some h) l = Ok true -> spec_trusted h l.
 Proof.
-  unfold host_is_trusted. destruct h as [|c h]; [discriminate|].
+  unfold host_is_trusted_ref. destruct h as [|c h]; [discriminate|].
   destruct (norm_host idna_u (c :: h)) as [hn|] eqn:NH.
-  2:{ unfold on_idna_failure. destruct host_catches_unicode_error; discriminate. }
+  2:{ discriminate. }
   intro H. exists hn. split; [apply norm_host_names; exact NH|].
-  apply match_refs_sound; [|exact H]. exists (strip_port (c :: h)). exact NH.
+  apply match_refs_sound; [|exact H]. exists (strip_port_ref (c :: h)). exact NH.
 Qed.
 
-Lemma host_absent l : host_is_trusted idna_u None l = Ok false.
+Lemma host_absent l : host_is_trusted_ref idna_u None l = Ok false.
 Proof. reflexivity. Qed.
 
 (* no failure of any kind: with the handlers as they are in the source (Gen.v), the result is a boolean *)
@@ -453,25 +453,25 @@ Proof.
   - exists false. reflexivity.
 Qed.
 
-Lemma host_total h l : exists b, host_is_trusted idna_u h l = Ok b.
+Lemma host_total h l : exists b, host_is_trusted_ref idna_u h l = Ok b.
 Proof.
-  unfold host_is_trusted. destruct h as [[|c h]|]; try (exists false; reflexivity).
+  unfold host_is_trusted_ref. destruct h as [[|c h]|]; try (exists false; reflexivity).
   destruct (norm_host idna_u (c :: h)); [apply match_refs_total|exists false; reflexivity].
 Qed.
 
-Lemma get_host_errors scheme hh server tr e : get_host idna_u scheme hh server tr = Err e -> e = SecurityError.
+Lemma get_host_errors scheme hh server tr e : get_host_ref idna_u scheme hh server tr = Err e -> e = SecurityError.
 Proof.
-  unfold get_host. destruct tr as [l|]; [|discriminate].
-  match goal with |- context [host_is_trusted idna_u ?a ?b] => destruct (host_total a b) as [b' Hb]; rewrite Hb end.
+  unfold get_host_ref. destruct tr as [l|]; [|discriminate].
+  match goal with |- context [host_is_trusted_ref idna_u ?a ?b] => destruct (host_total a b) as [b' Hb]; rewrite Hb end.
   destruct b'; [discriminate|]. intro H. injection H as <-. reflexivity.
 Qed.
 
 (* a host returned under a trusted list satisfies the specification *)
-Lemma get_host_trusted scheme hh server l v : get_host idna_u scheme hh server (Some l) = Ok v -> spec_trusted v l.
+Lemma get_host_trusted scheme hh server l v : get_host_ref idna_u scheme hh server (Some l) = Ok v -> spec_trusted v l.
 Proof.
-  unfold get_host.
-  match goal with |- context [host_is_trusted idna_u (Some ?a) l] => set (host := a) end.
-  destruct (host_is_trusted idna_u (Some host) l) as [[|]|] eqn:H; try discriminate.
+  unfold get_host_ref.
+  set (host := assemble scheme hh server).
+  destruct (host_is_trusted_ref idna_u (Some host) l) as [[|]|] eqn:H; try discriminate.
   intro E. injection E as <-. apply host_sound. exact H.
 Qed.
 
@@ -479,13 +479,13 @@ Qed.
 Definition s_localhost : str := [108; 111; 99; 97; 108; 104; 111; 115; 116].
 Definition s_loopback : str := [49; 50; 55; 46; 48; 46; 48; 46; 49].
 
-Lemma default_list_sound h : host_is_trusted idna_u (Some h) default_trusted_hosts = Ok true ->
+Lemma default_list_sound h : host_is_trusted_ref idna_u (Some h) default_trusted_hosts = Ok true ->
   exists hn, names h hn /\
     (hn = s_localhost \/ (exists sub, sub <> [] /\ hn = sub ++ DOT :: s_localhost) \/ hn = s_loopback).
 Proof.
-  unfold host_is_trusted. destruct h as [|c h]; [discriminate|].
+  unfold host_is_trusted_ref. destruct h as [|c h]; [discriminate|].
   destruct (norm_host idna_u (c :: h)) as [hn|] eqn:NH.
-  2:{ unfold on_idna_failure. destruct host_catches_unicode_error; discriminate. }
+  2:{ discriminate. }
   intro H. exists hn. split; [apply norm_host_names; exact NH|].
   assert (E1 : norm_host idna_u s_localhost = Some s_localhost) by (vm_compute; reflexivity).
   assert (E2 : norm_host idna_u s_loopback = Some s_loopback) by (vm_compute; reflexivity).
@@ -502,6 +502,147 @@ Proof.
 Qed.
 
 End HostFacts.
+
+(* ================================================================== generated host functions = reference reading *)
+(* The functions of Gen.v (regenerated from sansio/utils.py: branch conditions, order of port strip /
+   IDNA / comparison, handlers, None / empty-list handling) are proved equal to the reference
+   definitions of Model.v.  A reordered or dropped step in the source changes Gen.v and one of
+   these proofs stops compiling. *)
+
+Lemma index_of_partition_some x s : forall a b, partition1 x s = (a, Some b) -> index_of x s = Some (length a).
+Proof.
+  induction s as [|y s IH]; intros a b H; cbn [partition1] in H; [discriminate|]. cbn [index_of].
+  destruct (x =? y) eqn:E.
+  - injection H as <- <-. reflexivity.
+  - destruct (partition1 x s) as [a' b'] eqn:P. injection H as <- ->. rewrite (IH a' b eq_refl). reflexivity.
+Qed.
+
+Lemma index_of_partition_none x s : forall a, partition1 x s = (a, None) -> index_of x s = None.
+Proof.
+  induction s as [|y s IH]; intros a H; cbn [partition1] in H; cbn [index_of]; [reflexivity|].
+  destruct (x =? y) eqn:E; [discriminate|]. destruct (partition1 x s) as [a' b'] eqn:P. injection H as <- ->.
+  rewrite (IH a' eq_refl). reflexivity.
+Qed.
+
+Lemma firstn_app_exact (A : Type) (l1 l2 : list A) : firstn (length l1) (l1 ++ l2) = l1.
+Proof. rewrite firstn_app, Nat.sub_diag, firstn_all. cbn [firstn]. apply app_nil_r. Qed.
+
+Lemma skipn_app_exact (A : Type) (l1 l2 : list A) : skipn (length l1) (l1 ++ l2) = l2.
+Proof. rewrite skipn_app, Nat.sub_diag, skipn_all. reflexivity. Qed.
+
+(* s[:k] for 0 <= k <= len *)
+Lemma py_slice_to_prefix pre post : py_slice (pre ++ post) None (Some (Z.of_nat (length pre))) = pre.
+Proof.
+  unfold py_slice, clamp_idx. rewrite app_length.
+  destruct (Z.ltb_spec (Z.of_nat (length pre)) 0); [lia|].
+  replace (Z.to_nat (Z.min (Z.of_nat (length pre)) (Z.of_nat (length pre + length post)) - 0)) with (length pre) by lia.
+  cbn [Z.to_nat skipn]. apply firstn_app_exact.
+Qed.
+
+(* s[k:k+1] *)
+Lemma py_slice_one pre post :
+  py_slice (pre ++ post) (Some (Z.of_nat (length pre))) (Some (Z.of_nat (length pre) + 1)%Z)
+  = match post with [] => [] | d :: _ => [d] end.
+Proof.
+  unfold py_slice, clamp_idx. rewrite app_length.
+  destruct (Z.ltb_spec (Z.of_nat (length pre)) 0); [lia|].
+  destruct (Z.ltb_spec (Z.of_nat (length pre) + 1) 0); [lia|].
+  replace (Z.to_nat (Z.min (Z.of_nat (length pre)) (Z.of_nat (length pre + length post)))) with (length pre) by lia.
+  rewrite skipn_app_exact. destruct post as [|d post].
+  - apply firstn_nil.
+  - cbn [length]. replace (Z.to_nat _) with 1%nat by lia. reflexivity.
+Qed.
+
+Lemma py_slice_from_1 c r : py_slice (c :: r) (Some 1%Z) None = r.
+Proof.
+  unfold py_slice, clamp_idx. cbn [length]. destruct (Z.ltb_spec 1 0); [lia|].
+  replace (Z.to_nat (Z.min 1 (Z.of_nat (S (length r))))) with 1%nat by lia. cbn [skipn].
+  replace (Z.to_nat _) with (length r) by lia. apply firstn_all.
+Qed.
+
+Lemma py_slice_first s : list_eqb (py_slice s (Some 0%Z) (Some 1%Z)) [LBR] = match s with c :: _ => c =? LBR | [] => false end.
+Proof.
+  destruct s as [|c r]; [reflexivity|]. unfold py_slice, clamp_idx.
+  change (0 <? 0)%Z with false. change (1 <? 0)%Z with false. cbv iota.
+  assert (E1 : Z.min 0 (Z.of_nat (length (c :: r))) = 0%Z) by (cbn [length]; lia).
+  assert (E2 : Z.min 1 (Z.of_nat (length (c :: r))) = 1%Z) by (cbn [length]; lia).
+  rewrite E1, E2. change (Z.to_nat (1 - 0)) with 1%nat. change (Z.to_nat 0) with 0%nat.
+  cbn [skipn firstn list_eqb]. apply andb_true_r.
+Qed.
+
+Lemma py_slice_drop s n : (0 < n)%nat -> py_slice s None (Some (- Z.of_nat n)%Z) = drop_last n s.
+Proof.
+  intro Hn. unfold py_slice, clamp_idx, drop_last. destruct (Z.ltb_spec (- Z.of_nat n) 0); [|lia].
+  cbn [Z.to_nat skipn]. f_equal. lia.
+Qed.
+
+Lemma strip_port_eq h : strip_port h = strip_port_ref h.
+Proof.
+  unfold strip_port, py_startswith. destruct h as [|c r]; [reflexivity|].
+  cbn [starts_with]. rewrite andb_true_r. unfold strip_port_ref. rewrite (N.eqb_sym c LBR). change 91 with LBR.
+  destruct (LBR =? c) eqn:E; [|reflexivity].
+  apply N.eqb_eq in E. subst c. unfold py_find. cbn [index_of]. change 93 with RBR. change (RBR =? LBR) with false. cbv iota.
+  destruct (partition1 RBR r) as [a [rest|]] eqn:P.
+  - rewrite (index_of_partition_some _ _ _ _ P). cbn [option_map].
+    destruct (partition1_some _ _ _ _ P) as [-> M].
+    assert (NE : (Z.of_nat (S (length a)) =? -1)%Z = false) by lia. rewrite NE. cbn [negb andb].
+    replace (Z.of_nat (S (length a)) + 1)%Z with (Z.of_nat (length (LBR :: a ++ [RBR]))) by (cbn [length]; rewrite app_length; cbn [length]; lia).
+    replace (Z.of_nat (S (length a)) + 2)%Z with (Z.of_nat (length (LBR :: a ++ [RBR])) + 1)%Z by (cbn [length]; rewrite app_length; cbn [length]; lia).
+    replace (LBR :: a ++ RBR :: rest) with ((LBR :: a ++ [RBR]) ++ rest) by (cbn [app]; rewrite <- app_assoc; reflexivity).
+    rewrite py_slice_one, py_slice_to_prefix. destruct rest as [|d rest].
+    + rewrite app_nil_r. reflexivity.
+    + unfold str_in. cbn [existsb list_eqb]. rewrite andb_true_r, orb_false_r. change 58 with COLON.
+      destruct (d =? COLON); reflexivity.
+  - rewrite (index_of_partition_none _ _ _ P). cbn [option_map]. reflexivity.
+Qed.
+
+Lemma split_dot_eq ref :
+  (if py_startswith ref [46] then (py_slice ref (Some 1%Z) None, true) else (ref, false)) = split_dot ref.
+Proof.
+  unfold py_startswith, split_dot. destruct ref as [|c r]; [reflexivity|]. cbn [starts_with].
+  rewrite andb_true_r, (N.eqb_sym c DOT). change 46 with DOT. destruct (DOT =? c); [|reflexivity].
+  rewrite py_slice_from_1. reflexivity.
+Qed.
+
+Section Equiv.
+Variable idna_u : str -> option str.
+
+Lemma hit_loop_eq hn l : host_is_trusted_loop idna_u hn l = match_refs idna_u hn l.
+Proof.
+  induction l as [|ref l IH]; [reflexivity|]. cbn [host_is_trusted_loop match_refs].
+  pose proof (split_dot_eq ref) as SD.
+  destruct (py_startswith ref [46]); rewrite <- SD; cbv iota beta; rewrite strip_port_eq; unfold norm_host;
+    (destruct (idna_encode idna_u (strip_port_ref _)) as [refn|]; [|reflexivity]);
+    unfold py_endswith; cbn [app]; change 46 with DOT; rewrite IH; reflexivity.
+Qed.
+
+Lemma host_is_trusted_eq h l : host_is_trusted idna_u h l = host_is_trusted_ref idna_u h l.
+Proof.
+  unfold host_is_trusted, host_is_trusted_ref. destruct h as [[|c r]|]; try reflexivity.
+  cbn [str_truthy negb]. rewrite strip_port_eq. unfold norm_host.
+  destruct (idna_encode idna_u (strip_port_ref (c :: r))); [apply hit_loop_eq|reflexivity].
+Qed.
+
+Lemma scheme_in_eq s a b : str_in s [a; b] = list_eqb s a || list_eqb s b.
+Proof. unfold str_in. cbn [existsb]. rewrite orb_false_r. reflexivity. Qed.
+
+Lemma get_host_eq scheme hh server tr : get_host idna_u scheme hh server tr = get_host_ref idna_u scheme hh server tr.
+Proof.
+  unfold get_host, get_host_ref. cbv zeta.
+  match goal with |- context [host_is_trusted idna_u (Some ?H) _] => assert (HA : H = assemble scheme hh server) end.
+  { unfold assemble. cbv zeta. rewrite !scheme_in_eq. unfold py_endswith.
+    change [58; 56; 48] with s_80. change [58; 52; 52; 51] with s_443.
+    change [104; 116; 116; 112] with s_http. change [119; 115] with s_ws.
+    change [104; 116; 116; 112; 115] with s_https. change [119; 115; 115] with s_wss.
+    change (-3)%Z with (- Z.of_nat 3)%Z. change (-4)%Z with (- Z.of_nat 4)%Z. rewrite !py_slice_drop by lia.
+    destruct hh as [h|]; [reflexivity|]. destruct server as [[name port]|]; [|reflexivity]. cbn [fst snd].
+    change [91] with [LBR]. rewrite py_slice_first. unfold py_contains. change 58 with COLON.
+    destruct (mem COLON name && negb match name with [] => false | c :: _ => c =? LBR end); destruct port; reflexivity. }
+  rewrite HA. destruct tr as [l|]; [|reflexivity].
+  rewrite host_is_trusted_eq. destruct (host_is_trusted_ref idna_u (Some (assemble scheme hh server)) l) as [[|]|]; reflexivity.
+Qed.
+End Equiv.
+
 
 (* ================================================================== the concrete gate *)
 Section Concrete.
@@ -612,3 +753,128 @@ Definition s_evillocalhost : str := [101; 118; 105; 108; 108; 111; 99; 97; 108; 
 Definition s_v6_1 : str := [91; 58; 58; 49; 93].
 Definition s_v6_2_port : str := [91; 58; 58; 50; 93; 58; 56; 48].
 Definition s_a_dotdot_b : str := [97; 46; 46; 98].
+
+(* ================================================================== the generated host functions: transferred results *)
+Section Generated.
+Variable idna_u : str -> option str.
+Hypothesis idna_u_labels : forall s o, idna_u s = Some o -> ascii_labels_ok o 0 = true.
+
+Lemma strip_port_part_gen h : host_part h (strip_port h).
+Proof. rewrite strip_port_eq. apply strip_port_part. Qed.
+
+Lemma host_sound_gen h l : host_is_trusted idna_u (Some h) l = Ok true -> spec_trusted idna_u h l.
+Proof. rewrite host_is_trusted_eq. apply host_sound. exact idna_u_labels. Qed.
+
+Lemma default_list_sound_gen h : host_is_trusted idna_u (Some h) default_trusted_hosts = Ok true ->
+  exists hn, names idna_u h hn /\
+    (hn = s_localhost \/ (exists sub, sub <> [] /\ hn = sub ++ DOT :: s_localhost) \/ hn = s_loopback).
+Proof. rewrite host_is_trusted_eq. apply default_list_sound. exact idna_u_labels. Qed.
+
+Lemma get_host_trusted_gen scheme hh server l v : get_host idna_u scheme hh server (Some l) = Ok v -> spec_trusted idna_u v l.
+Proof. rewrite get_host_eq. apply get_host_trusted. exact idna_u_labels. Qed.
+End Generated.
+
+Section GeneratedTotal.
+Variable idna_u : str -> option str.
+
+Lemma host_total_gen h l : exists b, host_is_trusted idna_u h l = Ok b.
+Proof. rewrite host_is_trusted_eq. apply host_total. Qed.
+
+Lemma host_absent_gen l : host_is_trusted idna_u None l = Ok false.
+Proof. reflexivity. Qed.
+
+Lemma host_empty_list_gen h : host_is_trusted idna_u h [] = Ok false.
+Proof.
+  rewrite host_is_trusted_eq. unfold host_is_trusted_ref. destruct h as [[|c r]|]; try reflexivity.
+  destruct (norm_host idna_u (c :: r)); reflexivity.
+Qed.
+
+Lemma get_host_errors_gen scheme hh server tr e : get_host idna_u scheme hh server tr = Err e -> e = SecurityError.
+Proof. rewrite get_host_eq. apply get_host_errors. Qed.
+
+(* request-level enforcement: sansio.request.Request.host and wsgi.get_host hand their trusted_hosts
+   to get_host unchanged.  None: no validation.  A list (the empty list included): the assembled host
+   is returned exactly when host_is_trusted says true, otherwise SecurityError. *)
+Lemma get_host_spec scheme hh server :
+  let h := assemble scheme hh server in
+  get_host idna_u scheme hh server None = Ok h /\
+  (forall l, exists b, host_is_trusted idna_u (Some h) l = Ok b /\
+     get_host idna_u scheme hh server (Some l) = if b then Ok h else Err SecurityError) /\
+  get_host idna_u scheme hh server (Some []) = Err SecurityError.
+Proof.
+  intro h. split; [rewrite get_host_eq; reflexivity|]. split.
+  - intro l. destruct (host_total_gen (Some h) l) as [b Hb]. exists b. split; [exact Hb|].
+    rewrite get_host_eq. unfold get_host_ref. fold h. rewrite <- host_is_trusted_eq, Hb. destruct b; reflexivity.
+  - rewrite get_host_eq. unfold get_host_ref. rewrite <- host_is_trusted_eq, host_empty_list_gen. reflexivity.
+Qed.
+
+Lemma request_host_spec scheme hh server :
+  let h := assemble scheme hh server in
+  request_host idna_u scheme hh server None = Ok h /\
+  (forall l, exists b, host_is_trusted idna_u (Some h) l = Ok b /\
+     request_host idna_u scheme hh server (Some l) = if b then Ok h else Err SecurityError) /\
+  request_host idna_u scheme hh server (Some []) = Err SecurityError /\
+  (forall tr, wsgi_get_host idna_u scheme hh server tr = request_host idna_u scheme hh server tr).
+Proof.
+  intro h. destruct (get_host_spec scheme hh server) as [A [B C]].
+  split; [exact A|]. split; [exact B|]. split; [exact C|]. intro tr. reflexivity.
+Qed.
+End GeneratedTotal.
+
+(* ================================================================== the frames table across requests *)
+
+Definition served_console (s : dstate) (q : areq) : Prop :=
+  exists t, fst (astep s q) = OConsole t /\ a_host_trusted (ar_atoms q) = true /\ a_evalex (ar_atoms q) = true.
+
+Lemma astep_frames s q : ~ In 0%Z (ar_new_frames q) -> In 0%Z (d_frames (snd (astep s q))) ->
+  In 0%Z (d_frames s) \/ served_console s q.
+Proof.
+  intros HN. unfold served_console, astep.
+  pose proof (sweep_call endpoint_req endpoint_sweep (atoms_in s q) (lock_test (d_count s))) as E. unfold endpoint_req in E.
+  destruct (call (atoms_in s q) (lock_test (d_count s))) as [o k]. cbn [fst snd d_frames] in *.
+  destruct o; cbn [creates_console_frame]; intro H; try (left; exact H).
+  - apply in_app_or in H. destruct H as [H|H]; [contradiction|left; exact H].
+  - right. exists evalex_trusted. split; [reflexivity|].
+    repeat (apply andb_prop in E; destruct E as [E ?]). cbn [atoms_in with_frame a_host_trusted a_evalex] in *.
+    split; assumption.
+Qed.
+
+Lemma arun_cons s q h : arun s (q :: h) = arun (snd (astep s q)) h.
+Proof. reflexivity. Qed.
+
+Lemma arun_frames h : forall s, (forall q, In q h -> ~ In 0%Z (ar_new_frames q)) -> In 0%Z (d_frames (arun s h)) ->
+  In 0%Z (d_frames s) \/ exists pre q post, h = pre ++ q :: post /\ served_console (arun s pre) q.
+Proof.
+  induction h as [|q h IH]; intros s HN H; [left; exact H|].
+  rewrite arun_cons in H.
+  destruct (IH (snd (astep s q)) (fun x Hx => HN x (or_intror Hx)) H) as [H1|[pre [q' [post [E S]]]]].
+  - destruct (astep_frames s q (HN q (or_introl eq_refl)) H1) as [H2|H2]; [left; exact H2|].
+    right. exists [], q, h. split; [reflexivity|exact H2].
+  - right. exists (q :: pre), q', post. split; [cbn [app]; rewrite E; reflexivity|]. rewrite arun_cons. exact S.
+Qed.
+
+(* evaluation in the console frame (frame 0) is impossible before the console page has been served to
+   a trusted Host with evalex on - for every history of requests *)
+Lemma console_eval_needs_page : forall h s q,
+  ~ In 0%Z (d_frames s) -> (forall x, In x h -> ~ In 0%Z (ar_new_frames x)) ->
+  ar_frm q = Some 0%Z -> fst (astep (arun s h) q) = OEval ->
+  exists pre q' post, h = pre ++ q' :: post /\ served_console (arun s pre) q'.
+Proof.
+  intros h s q H0 HN F E. unfold astep in E.
+  destruct (call (atoms_in (arun s h) q) (lock_test (d_count (arun s h)))) as [o k] eqn:C. cbn [fst] in E. subst o.
+  assert (G : fst (call (atoms_in (arun s h) q) (lock_test (d_count (arun s h)))) = OEval) by (rewrite C; reflexivity).
+  destruct (gate_abstract _ _ G) as [G1 _]. unfold eval_conj in G1.
+  repeat (apply andb_prop in G1; destruct G1 as [G1 ?]).
+  cbn [atoms_in with_frame a_frame] in *. rewrite F in *. cbn [frame_in] in *.
+  match goal with HF : existsb _ _ = true |- _ => apply existsb_exists in HF; destruct HF as [z [Hin Hz]] end.
+  apply Z.eqb_eq in Hz. subst z.
+  destruct (arun_frames h s HN Hin) as [X|X]; [contradiction|exact X].
+Qed.
+
+Definition ex_console_page : areq :=
+  {| ar_atoms := {| a_dbg := false; a_cmd := CNone; a_arg := false; a_secret_ok := false; a_frame := false; a_evalex := true;
+                    a_console_path_set := true; a_path_is_console := true; a_host_trusted := true; a_pin_trust := TTrue;
+                    a_pin_present := false; a_pin_matches := false; a_pin_logging := true; a_pin_is_none := false |};
+     ar_frm := None; ar_new_frames := [] |}.
+Definition ex_eval_frame0 : areq := {| ar_atoms := ex_eval; ar_frm := Some 0%Z; ar_new_frames := [] |}.
+Definition st0 : dstate := {| d_count := 0; d_frames := [] |}.
